@@ -26,6 +26,17 @@ func (w *Worker) genHistory(r *simrt.Rand, index, maxLen int) []simapi.Visit {
 	for i := 0; i < 1+r.Intn(4); i++ {
 		pool = append(pool, names[r.Intn(len(names))])
 	}
+	if r.Intn(2) == 0 { // one of the hand-written interplay packages
+		var hw []string
+		for _, n := range names {
+			if strings.HasPrefix(n, "x_") || strings.HasPrefix(n, "o_") {
+				hw = append(hw, n)
+			}
+		}
+		if len(hw) > 0 {
+			pool = append(pool, hw[r.Intn(len(hw))])
+		}
+	}
 	for len(vs) < n {
 		p := pool[r.Intn(len(pool))]
 		files := w.index.AllFiles(p)
@@ -44,9 +55,13 @@ func (w *Worker) genHistory(r *simrt.Rand, index, maxLen int) []simapi.Visit {
 			}
 			files = nf
 		}
-		vs = append(vs, simapi.Visit{Pkg: p, Files: files})
+		vis := simapi.Visit{Pkg: p, Files: files}
+		if r.Intn(3) == 0 { // which declaration comes first / last in a file varies too
+			vis.DeclSeed = r.Uint64() | 1
+		}
+		vs = append(vs, vis)
 		if r.Intn(6) == 0 && len(vs) < n { // idempotence probe: the same visit again, immediately
-			vs = append(vs, simapi.Visit{Pkg: p, Files: append([]int(nil), files...)})
+			vs = append(vs, simapi.Visit{Pkg: p, Files: append([]int(nil), files...), DeclSeed: vis.DeclSeed})
 		}
 	}
 	return vs
